@@ -172,6 +172,9 @@ class Decomposer:
             }
             solver_kwargs.setdefault("compute", self.compute)
             solver_kwargs.setdefault("n_power_iter", 4)
+            # re-orthonormalise between the power iterations: plain powers
+            # lose the directions far below the leading singular value
+            solver_kwargs.setdefault("iterator", "QR")
             U, s, VT = self._svd(X, dims, dask_svd, solver_kwargs)
             U, s, VT = self._compute_svd_result(U, s, VT)
         else:
